@@ -583,6 +583,7 @@ func (ctx *Ctx) getW() *bytes.Buffer {
 	var b *bytes.Buffer
 	if ctx.wl < len(ctx.w) {
 		b = &ctx.w[ctx.wl]
+		b.Reset()
 		ctx.wl++
 	} else {
 		ctx.w = append(ctx.w, bytes.Buffer{})
@@ -590,6 +591,13 @@ func (ctx *Ctx) getW() *bytes.Buffer {
 		ctx.wl++
 	}
 	return b
+}
+
+// Put the last taken byte writer back.
+func (ctx *Ctx) putW() {
+	if ctx.wl > 0 {
+		ctx.wl--
+	}
 }
 
 // Get new or existing KV pair.
